@@ -6,29 +6,68 @@
 
    Each step records the call (`a`), its result (`res`: "ok", or which backend's RevertHead
    returned an error), the ground truth for EVERY block of the chain after the step (`truth`, what
-   all head / historical reads are compared with) and the projection of the block-level indexes
-   (`idx`).  A Revert step also says whether the block has the H4 shape (`a.h4`: the legacy log
-   has no entry for a slot the block wrote) - with FixH4 = FALSE that is exactly when res # "ok". *)
+   all head / historical reads are compared with), the projection of the block-level indexes
+   (`idx`) and the projection of both history encodings (`enc`: every log entry, deployment
+   height, class record and CASM metadata the specification holds after the step - what the raw
+   history buckets of the real database are compared with, so that an entry a RevertHead leaves
+   behind is seen at the revert and not only when a later read happens to hit it).  A Revert step
+   also says whether the block has the H4 shape (`a.h4`: the legacy log has no entry for a slot the
+   block wrote) - with FixH4 = FALSE that is exactly when res # "ok".
+
+   ForkBias (a definition; StateHistory_forksim.cfg substitutes ForkOn) guides the walk towards
+   the histories in which a leftover of a revert shows (the counterexamples of the
+   StateHistory_x_keep_*.cfg mutants): the block just stored is reverted at once half of the time,
+   reverts go one block deeper one time in four, and the blocks stored after a revert mostly avoid
+   every key the reverted blocks touched (`rvd`), so that nothing overwrites what the revert may
+   have left behind before the reads that follow every step look at it. *)
 EXTENDS Revert, Json
 
 CONSTANTS MaxSteps, SimMaxOps
 
-VARIABLES hist, steps
-mbtvars == <<rvars, hist, steps>>
+VARIABLES hist, steps,
+          rvd      \* the entries of the blocks reverted since the last block that touched one of them
+mbtvars == <<rvars, hist, steps, rvd>>
 
-MBTInit == RInit /\ hist = <<>> /\ steps = 0
+ForkBias == FALSE
+ForkOn == TRUE
+
+MBTInit == RInit /\ hist = <<>> /\ steps = 0 /\ rvd = {}
 
 Kinds == {"decl", "mig", "dep", "rep", "nonce", "stor"}
 
+(* the contract / class an entry is about: a replacement block "does not touch" a reverted entry when
+   it has no entry for the same key and does not re-create the contract the entry belonged to *)
+Touches(o, avoid) == \E p \in avoid : SameKey(o, p) \/ (o.k = "dep" /\ p.a = o.a)
+
+(* ForkBias only: what an entry does to the value its key has now - the history encodings treat
+   these cases differently (a cleared slot is a tombstone in the new log and the only zero write the
+   legacy state logs; a same-value rewrite changes no trie; ...), and drawn uniformly from AllOps a
+   write that clears a non-zero slot of a user contract is rare (~1 entry in 60) *)
+Shape(o) ==
+  IF o.k = "stor" THEN LET cur == CurT.con[o.a].stor[o.s] IN
+                       IF o.v = 0 /\ cur # 0 THEN "clear" ELSE IF o.v = cur THEN "same" ELSE IF cur = 0 THEN "fresh" ELSE "change"
+  ELSE IF o.k = "nonce" THEN (IF o.v = CurT.con[o.a].nonce THEN "same" ELSE "change")
+  ELSE IF o.k = "rep" THEN (IF o.c = CurT.con[o.a].cls THEN "same" ELSE "change")
+  ELSE "-"
+OfSys(o) == o.a \in Sys
+(* the members of C that agree with one randomly drawn member on f (drawn once: bound variable) *)
+Sub(C, f(_)) == UNION {{o \in C : f(o) = v} : v \in {RandomElement({f(o) : o \in C})}}
+(* user or system contract first, then the shape, then the entry *)
+PickShaped(C) == RandomElement(Sub(Sub(C, OfSys), Shape))
+
 (* a random valid diff, grown entry by entry; the KIND of the next entry is drawn first so that
    the 48 storage entries do not drown the 3 declarations *)
-RECURSIVE Grow(_, _, _)
-Grow(d, ver, k) ==
+RECURSIVE Grow(_, _, _, _)
+Grow(d, ver, k, avoid) ==
   IF k = 0 THEN d
-  ELSE LET cand(kk) == {o \in AllOps : o.k = kk /\ o \notin d /\ Valid(CurT, ver, d \cup {o})}
+  ELSE LET cand(kk) == {o \in AllOps : o.k = kk /\ o \notin d /\ ~Touches(o, avoid) /\ Valid(CurT, ver, d \cup {o})}
            kinds == {kk \in Kinds : cand(kk) # {}}
        IN IF kinds = {} THEN d
-          ELSE LET kk == RandomElement(kinds) IN Grow(d \cup {RandomElement(cand(kk))}, ver, k - 1)
+          ELSE IF ForkBias
+               THEN \* every other entry is a storage write (the kind with the richest history)
+                    LET kk == IF "stor" \in kinds /\ RandomElement(1..2) = 1 THEN "stor" ELSE RandomElement(kinds) IN
+                    Grow(d \cup {PickShaped(cand(kk))}, ver, k - 1, avoid)
+               ELSE LET kk == RandomElement(kinds) IN Grow(d \cup {RandomElement(cand(kk))}, ver, k - 1, avoid)
 
 RECURSIVE GrowTxs(_, _)
 GrowTxs(s, k) ==
@@ -37,27 +76,66 @@ GrowTxs(s, k) ==
 
 (* one random draw per parameter, bound by a quantifier so that it is evaluated exactly once *)
 One(x) == {x}
-SimApply ==
+SimApplyAvoiding(avoid) ==
   \E ver \in One(IF 1 \notin Vers THEN 0 ELSE IF HeadVer = 1 \/ 0 \notin Vers \/ RandomElement(1..5) = 1 THEN 1 ELSE 0) :
-  \E d \in One(Grow({}, ver, RandomElement(0..SimMaxOps))) :
+  \E d \in One(Grow({}, ver, RandomElement(0..SimMaxOps), avoid)) :
   \E txs \in One(GrowTxs(<<>>, RandomElement(0..MaxTxs))) :
-    RApply(d, ver, txs)
+    /\ RApply(d, ver, txs)
+    /\ rvd' = {p \in rvd : ~\E o \in d : SameKey(o, p)}
+SimApply == SimApplyAvoiding({})
+(* ForkBias: block 0 declares a class and deploys a user contract with it (plus random entries), so
+   that the history of a user contract starts at once *)
+SimApplyFirst ==
+  \E c \in One(RandomElement(Classes)) : \E u \in One(RandomElement(Users)) :
+  \E d \in One(Grow({ODecl(c), ODep(u, c)}, 0, RandomElement(0..SimMaxOps), {})) :
+  \E txs \in One(GrowTxs(<<>>, RandomElement(0..MaxTxs))) :
+    /\ RApply(d, 0, txs)
+    /\ rvd' = {p \in rvd : ~\E o \in d : SameKey(o, p)}
+
+SimRevert == RRevert /\ rvd' = IF res' = "ok" THEN rvd \cup chain[NBlocks].ops ELSE rvd
+SimRestart == \E g \in One(RandomElement(BOOLEAN)) : RRestart(g) /\ UNCHANGED rvd
 
 (* 3 : 2 in favour of growth while the chain may grow; reverts come in runs, so forks get deep;
    one step in six is a restart (graceful or not) - it may fall anywhere, in particular right
    before a RevertHead or a Store, which then is the first operation of the new process *)
-SimNext ==
+PlainNext ==
   \E r \in One(RandomElement(1..6)) :
     IF NBlocks = 0 \/ (r <= 3 /\ NBlocks < MaxBlocks) THEN SimApply
-    ELSE IF r = 6 /\ act.name # "Restart" THEN \E g \in One(RandomElement(BOOLEAN)) : RRestart(g)
-    ELSE RRevert
+    ELSE IF r = 6 /\ act.name # "Restart" THEN SimRestart
+    ELSE SimRevert
+
+(* guided towards revert-after-K ; replacement that does not touch K's keys (see the header) *)
+ForkNext ==
+  \E r \in One(RandomElement(1..12)) :
+    IF NBlocks = 0 THEN (IF rvd = {} THEN SimApplyFirst ELSE SimApplyAvoiding(rvd))
+    ELSE IF r = 12 /\ act.name # "Restart" THEN SimRestart
+    ELSE IF act.name = "Apply" /\ rvd = {}
+      THEN (IF r <= 6 \/ NBlocks = MaxBlocks THEN SimRevert ELSE SimApply)
+    ELSE IF act.name = "Revert"
+      THEN (IF r <= 3 \/ NBlocks = MaxBlocks THEN SimRevert
+            ELSE IF r <= 10 THEN SimApplyAvoiding(rvd) ELSE SimApply)
+    ELSE \* a replacement branch is growing (or the process just restarted)
+         (IF NBlocks = MaxBlocks \/ r <= 2 THEN SimRevert
+          ELSE IF r <= 8 THEN SimApplyAvoiding(rvd) ELSE SimApply)
+
+SimNext == IF ForkBias THEN ForkNext ELSE PlainNext
 
 IdxProj == [height |-> idx'.height, loc |-> idx'.loc, msg |-> idx'.msg]
+
+(* both history encodings as the specification holds them after the step *)
+EncProj ==
+  [nS |-> ndb'.logS, nN |-> ndb'.logN, nC |-> ndb'.logC,
+   nDh |-> [a \in AllC |-> ndb'.rec[a].dh], nAt |-> ndb'.cat,
+   lS |-> ldb'.logS, lN |-> ldb'.logN, lC |-> ldb'.logC,
+   lDh |-> ldb'.dep, lAt |-> ldb'.cat,
+   casm |-> cdb']
+
+Record == hist' = Append(hist, [a |-> act', res |-> res', truth |-> truth', idx |-> IdxProj, enc |-> EncProj])
 
 Step ==
   /\ SimNext
   /\ steps' = steps + 1
-  /\ hist' = Append(hist, [a |-> act', res |-> res', truth |-> truth', idx |-> IdxProj])
+  /\ Record
 
 Emit ==
   /\ PrintT(ToJson(hist))
@@ -66,7 +144,7 @@ Emit ==
   /\ failed' = "no" /\ act' = [name |-> "Init"] /\ res' = "ok"
   /\ hot' = FALSE /\ fcov' = {} /\ fnext' = 0
   /\ rd' = NoRd /\ rdone' = NoRdone
-  /\ hist' = <<>> /\ steps' = 0
+  /\ hist' = <<>> /\ steps' = 0 /\ rvd' = {}
 
 MBTNext == IF steps >= MaxSteps \/ failed # "no" THEN Emit ELSE Step
 =============================================================================
